@@ -356,7 +356,9 @@ def run_property(plan: Plan, tier: str, seed: int, contracts_mod_names, replay=N
             violations.append((o.name, None, note + (o.model or "") + (o.reason or ""), "no-failing-input-found"))
     # --- bounded stand-ins
     bounded_reports = []
-    for rep in run_isolated(plan.bounded, tier, seed, faults):
+    # a harness that does not answer within the allowance (the real code hangs) yields "no result": a checker fault for
+    # that harness, never a verdict about the property
+    for rep in run_isolated(plan.bounded, tier, seed, faults, timeout=1200 if tier == "quick" else 6 * 3600):
         bounded_reports.append(rep)
         for (label, inp, detail) in rep.get("violations", []):
             violations.append((f"bounded:{rep['name']}/{label}", inp, detail, None))
